@@ -252,6 +252,20 @@ def run_case(stream, seed, ctx, params):
             # use the duplicate in half of the references of one cell
             c = rng.choice(d.cells)
             c.expr = _respell(c.expr, s.id, nid, rng)
+    # an unflagged card whose number is that of a flagged one plus a multiple of 1000 (numbers of that form are also
+    # what the converter reads as "surface s as seen from cell c"): it has a card of its own and no flag
+    fl = [s_ for s_ in d.surfs if s_.bc]
+    plain = [s_ for s_ in d.surfs if not s_.bc and s_.id not in dup_of and s_.id not in dup_of.values()]
+    if fl and plain and rng.random() < 0.35:
+        u_, f_ = rng.choice(plain), rng.choice(fl)
+        new_id = 1000 * rng.choice([1, 2, 5]) + f_.id
+        if all(x.id != new_id for x in d.surfs):
+            mp = {x.id: x.id for x in d.surfs}
+            mp[u_.id] = new_id
+            for c in d.cells:
+                c.expr = D.expr_map_surfs(c.expr, mp)
+            u_.id = new_id
+            nid = max(nid, new_id)
     if rng.random() < 0.5:
         # lower-numbered duplicate of a flagged surface: renumber by swapping card numbers
         rng.shuffle(d.surfs)
@@ -286,7 +300,10 @@ def run_case(stream, seed, ctx, params):
         if 'BOUNDARY_CONDITION' in tl:
             i0 = tl.index('BOUNDARY_CONDITION')
             blk = tl[i0 - 1:tl.index('END_BOUNDARY_CONDITION') + 1]
-        want += ' | ' + ' '.join(lean.hx(l) for l in blk)
+        want += ' | ' + ' '.join(lean.hx(' '.join(l.split())) for l in blk)     # free-format: blank space is immaterial
+        if ' | ' in mresp:
+            head_, _, tail_ = mresp.partition(' | ')
+            mresp = head_ + ' | ' + ' '.join(lean.hx(' '.join(lean.unhx(t).split())) for t in tail_.split())
         if mresp.strip() != want.strip():
             fails.append(fail('disagreement', 'boundary-condition entries: code %s / model %s' % (want[:200], mresp[:200]),
                               {'stream': 'bc', 'stage': 'bcmodel'}, replay))
